@@ -9,6 +9,7 @@ CONSTANTS
   GasVals = {0, 1, 3}
   MaxSteps = 2
   MaxDepth = 1
+  MaxTx = 1
   Bug = "none"
   ExportOn = TRUE
 INIT Init
